@@ -10,7 +10,9 @@ from harness import valcodec as vc
 
 STREAMS = ['wire-encode', 'wire-decode', 'message-decode', 'padding-table', 'spec-vs-reference']
 THEOREMS = ['C02_alignTable', 'C02_padding', 'C02_encode', 'C02_decode', 'C02_encode_conf', 'C02_encode_checked',
-            'C02_decode_dict', 'layout_dict_entry', 'layout_fields', 'layout_elems',
+            'C02_decode_dict', 'C02_decode_any_fuel', 'C02_decode_fuel_free', 'C02_decode_dict_fuel_free',
+            'C02_encode_fuel_free', 'C02_encode_noVariant_fuel_free', 'C02_encode_conf_fuel_free',
+            'C02_encode_checked_fuel_free', 'C02_unmarshal_fuel_canonical', 'layout_dict_entry', 'layout_fields', 'layout_elems',
             'layout_array', 'layout_string', 'layout_signature', 'layout_variant', 'layout_struct',
             'layout_byte_order']
 TRUSTED_BASE = c01.TRUSTED_BASE + [
